@@ -71,6 +71,9 @@ def gen(rng, tier):
         elif r < 0.84:
             yield cc.gen_case(rng, mock_frames=rng.randint(1, 3),
                               frame_type=rng.choice(['all_frame', 'all_frame', 'single_frame', 'no_frame']))
+        elif r < 0.85:
+            # the host changes a recorded local between the line and the return event (recorded finding; two-heap model)
+            yield cc.gen_stale(rng)
         elif r < 0.86:
             # deferred snapshots completed by the callback with a large returned / raised value after the frame used the budget
             yield cc.gen_deferred(rng)
@@ -104,6 +107,21 @@ def corpus():
          'locals': [['s', 0], ['t', 1], ['u', 2]], 'frame_type': 'single_frame', 'stream': 'corpus',
          'actions': [{'limits': {'vars': 10, 'str': 8, 'coll': 3, 'depth': 3}}]},
     ]
+
+
+def known_finding(case, obs):
+    """structural: the host mutates a local the snapshot recorded at the line and returns that object (deferred capture)"""
+    if case.get('mutate') and case.get('capture') and 'raised' not in obs:
+        return cc.K_STALE
+    return None
+
+
+def known_replays():
+    return [(cc.K_STALE, "r = []; tracepoint (line_capture) on `return fill(r)`: the function returns a 2-element list, the pushed "
+                         "snapshot says CAPTURE return -> list 'Size: 0' (the entry made at the line)",
+             {'objs': [{'t': 'int', 'v': 1}, {'t': 'list', 'e': []}], 'locals': [['a', 0], ['acc', 1]], 'mutate': 'acc',
+              'capture': 'return', 'capture_expr': 'fill(acc)', 'stage': 'line_capture', 'frame_type': 'single_frame',
+              'stream': 'stale-capture', 'actions': [{'limits': {}}]})]
 
 
 def run_impl(case):
@@ -168,6 +186,8 @@ def label(case, obs):
         return 'limits-outside/%s=%r/snap%d' % (list(rl)[0], list(rl.values())[0], len(obs.get('snapshots', [])))
     if case.get('clock'):
         return 'clock/%s/%s' % (case.get('frame_type', ''), cc.clock_label(case, obs))
+    if case.get('stream') == 'stale-capture':
+        return 'stale-capture/%s/%s' % (case.get('stage'), obs.get('capture_event', 'no-event'))
     if case.get('stream') == 'deferred':
         return 'deferred/%s/%s/%s' % (case.get('stage'), obs.get('capture_event', 'no-event'), '+'.join(sorted(hit(case, obs)) or ['none']))
     kind = 'mock/' + case.get('frame_type', '') if case.get('mock') else ('capture' if case.get('capture') else 'frame')
